@@ -1331,7 +1331,15 @@ class Wtp:
             # Use the Lua sandbox to execute a Lua macro.  This will initialize
             # the Lua environment and store it in self.lua if it does not
             # already exist (it needs to be re-created for each new page).
-            ret = call_lua_sandbox(self, invoke_args, expander, parent, timeout)
+            ret = call_lua_sandbox(
+                self,
+                invoke_args,
+                expander,
+                parent,
+                timeout,
+                template_fn,
+                post_template_fn,
+            )
             # print("invoke_fn: invoke_args={} parent={} LUA ret={!r}"
             #       .format(invoke_args, parent, ret))
             return ret
